@@ -279,6 +279,19 @@ def oracleC11 (s : SyncCase) : Option String :=
         (r.verb == "updateStatus" || (r.verb == "update" && !s.cfg.parentHasStatus)))
     let sentGen := getGeneration (s.hookParent h)
     let hookStatus : KVs := match h.hookBody with | some b => (b.getD "status").fields | none => []
+    -- the end state: a sync that reconciled its children without an error leaves the live parent (same UID, not replaced
+    -- meanwhile) with the hook's status and the generation that was sent - whether or not it had to write
+    orElse (match s.parentAfter with
+      | some q =>
+          if s.outcome == "ok" && getUID q == s.parentUID && (h.hookBody.map (fun b => !(b.getD "status").isNull)).getD false
+              && s.calls.all (fun r => !r.injected) then
+            let st := q.getD "status"
+            orElse (check (st.get? "observedGeneration" == some (.num sentGen))
+              "after the sync the parent's observedGeneration is not the generation of the parent sent to the hook") fun _ =>
+            check (hookStatus.all (fun kv => kv.1 == "observedGeneration" || kv.1 == "conditions" || (match st.get? kv.1 with | some v => v.eqv kv.2 | none => false)))
+              "after the sync the parent's status is not the status the hook returned"
+          else none
+      | none => none) fun _ =>
     firstSome statusWrites (fun r =>
       orElse (check ((r.verb == "updateStatus") == s.cfg.parentHasStatus) "parent status written through the wrong endpoint") fun _ =>
       let st := r.body.getD "status"
